@@ -24,21 +24,26 @@ def stripO : Outcome → Outcome
   | .outOfFuel r => .outOfFuel (strip r)
 
 theorem strip_eq {r r' : RU} (h : strip r = strip r') :
-    r.s = r'.s ∧ r.cycles = r'.cycles ∧ r.execd = r'.execd ∧ r.onpc = r'.onpc ∧ r.wdm = r'.wdm := by
+    r.s = r'.s ∧ r.cycles = r'.cycles ∧ r.execd = r'.execd ∧ r.onpc = r'.onpc ∧ r.wdm = r'.wdm ∧ r.latch = r'.latch := by
   unfold strip at h
-  injection h with h1 h2 h3 h4 h5 h6
-  exact ⟨h1, h2, h4, h5, h6⟩
+  injection h with h1 h2 h3 h4 h5 h6 h7
+  exact ⟨h1, h2, h4, h5, h6, h7⟩
 
 theorem strip_logIt (b : Bool) (r : RU) : strip (logIt b r) = strip r := by cases b <;> rfl
 
 theorem stepObs_strip (v : Variant) (cbs : List Nat) (r r' : RU) (h : strip r = strip r') :
     (stepObs v cbs r).map strip = (stepObs v cbs r').map strip := by
-  obtain ⟨hs, hc, he, ho, hw⟩ := strip_eq h
+  obtain ⟨hs, hc, he, ho, hw, hl⟩ := strip_eq h
   unfold stepObs
-  rw [hs, hc, he, ho, hw]
-  cases step v r'.s with
+  rw [hs, hc, he, ho, hw, hl]
+  cases service v r'.latch r'.s with
   | none => rfl
-  | some p => rfl
+  | some p1 =>
+    obtain ⟨u, s1⟩ := p1
+    simp only
+    cases step v s1 with
+    | none => rfl
+    | some p => rfl
 
 theorem loop_strip (v : Variant) (b b' : Bool) (cbs : List Nat) (target max : Nat) :
     ∀ fuel r r', strip r = strip r' →
@@ -47,7 +52,7 @@ theorem loop_strip (v : Variant) (b b' : Bool) (cbs : List Nat) (target max : Na
   induction fuel with
   | zero =>
     intro r r' h
-    obtain ⟨hs, hc, _, _, _⟩ := strip_eq h
+    obtain ⟨hs, hc, _, _, _, _⟩ := strip_eq h
     rw [ruLoop, ruLoop, hs, hc]
     split
     · split
@@ -56,7 +61,7 @@ theorem loop_strip (v : Variant) (b b' : Bool) (cbs : List Nat) (target max : Na
     · simp only [stripO, h]
   | succ fuel ih =>
     intro r r' h
-    obtain ⟨hs, hc, _, _, _⟩ := strip_eq h
+    obtain ⟨hs, hc, _, _, _, _⟩ := strip_eq h
     rw [ruLoop, ruLoop, hs, hc]
     split
     · split
@@ -80,6 +85,12 @@ theorem loop_strip (v : Variant) (b b' : Bool) (cbs : List Nat) (target max : Na
 cycle totals, memory, executed-instruction sequence and callback sequences -/
 theorem logger_transparent (v : Variant) (cbs : List Nat) (target max : Nat) (s : St) :
     stripO (runUntil v true cbs target max s) = stripO (runUntil v false cbs target max s) :=
+  loop_strip v true false cbs target max max _ _ rfl
+
+/-- … also when an interrupt is pending on entry (whatever value the latch holds): the trace line is written before
+the `Step` that enters the interrupt and touches neither the latch nor the processor -/
+theorem logger_transparent_latched (v : Variant) (cbs : List Nat) (target max latch : Nat) (s : St) :
+    stripO (runUntilL v true cbs target max latch s) = stripO (runUntilL v false cbs target max latch s) :=
   loop_strip v true false cbs target max max _ _ rfl
 
 /-! ### what a trace line says -/
